@@ -176,6 +176,11 @@ def run_c20(out, tier, seed, replay):
                                         prog=[p for p in sel if p["name"] == rec["case"]["prog"]][0])}
     log(f"[par] C20: {ncfg} pool-assignment cases, {gid} concurrent groups, {len(cases)} cases")
     sem.finish_cases(out, pid, sel, cases, meta, mods, bindir, work)
+    if not replay:
+        # pool histories on large databases: shard vectors sized in one pool and scanned in another
+        import stress
+        stress.run_stress(out, pid, tier, seed, progs_all, mods, bindir, work,
+                          pool_pairs=((4, 3), (4, 5), (1, 8), (1, 4), (8, 1), (2, 8), (7, 3), (3, 7)))
     out.extra["pool_assignments_from_tlc"] = len(configs)
     out.extra["concurrent_groups"] = gid
     out.rule = ("model: Pools.tla, every assignment of pool sizes 1..4 to construction and to each of <= 3 runs (exhaustive). implementation: "
